@@ -7,8 +7,10 @@ import ast
 from tiv.astutil import body_walk, call_name, dotted, enclosing_stmt, guards, norm, short, stores_in, try_context, walk_local
 from tiv.cfg import CFG, fmt_path
 from tiv.effects import emits, names_in
-from tiv.match import b2s, find_stmts, match_expr
+from tiv.match import match_stmt, b2s, find_stmts, match_expr
+from tiv.affine import NotPoly, equal, parse
 from tiv.mutate import M
+from tiv.sem import trace, same_bool, expand
 
 RULES = {
     "R1": "synchronized-update bracket: draw_screen writes BEGIN_SYNCED_UPDATE immediately before a try whose finally writes END_SYNCED_UPDATE and "
@@ -45,15 +47,16 @@ def run(ck, m):
             if isinstance(c, ast.Call) and (norm(c.func) in ("self._ti_clear_images", "super().draw_screen", "self.clear_images") or (norm(c.func) == "self.write" and not emits(c, "BEGIN_SYNCED_UPDATE") and not emits(c, "END_SYNCED_UPDATE"))):
                 inside = any(t is tr and part == "body" for t, part in try_context(c))
                 ck.ob("R1", enclosing_stmt(c), inside, f"`{short(c, 50)}` produces output outside the synchronized-update bracket", stmt=f"draw_screen: {short(c, 50)} inside the bracket")
-        ck.ob("R1", ds, len(body) == 2, "draw_screen must consist of the BEGIN write and the bracketed try only", stmt="draw_screen: nothing outside the bracket")
+        rest = [x for x in body[2:] if not (isinstance(x, ast.Return) and (x.value is None or isinstance(x.value, (ast.Name, ast.Constant))))]
+        ck.ob("R1", ds, not rest, f"draw_screen must consist of the BEGIN write and the bracketed try only (found after the try: {[short(x, 40) for x in rest]})", stmt="draw_screen: nothing outside the bracket")
     # ---- R2 ----------------------------------------------------------------------------
     cl = [c for c in body_walk(ds) if isinstance(c, ast.Call) and norm(c.func) == "self._ti_clear_images"]
     sd = [c for c in body_walk(ds) if isinstance(c, ast.Call) and norm(c.func) == "super().draw_screen"]
     ck.ob("R2", ds, len(cl) == 1 and len(sd) == 1 and cl[0].lineno < sd[0].lineno, "stale images must be deleted before the new content is drawn", stmt="draw_screen: _ti_clear_images before super().draw_screen")
     if cl:
-        gs = [norm(t) for t, b in guards(cl[0]) if b]
+        gs = [t for t, b in guards(cl[0]) if b]
         sto = find_stmts("self._ti_screen_canv = canvas", body_walk(ds))
-        ck.ob("R2", enclosing_stmt(cl[0]), gs == ["canvas is not self._ti_screen_canv"] and len(sto) == 1 and sto[0][0].lineno < cl[0].lineno,
+        ck.ob("R2", enclosing_stmt(cl[0]), len(gs) == 1 and same_bool(ds, gs[0], "canvas is not self._ti_screen_canv") and len(sto) == 1 and sto[0][0].lineno < cl[0].lineno,
               "image views must be re-examined whenever a different canvas object is drawn (and the new canvas recorded first)", stmt="draw_screen: re-examine when the canvas changed")
     tc = m.get(W, "UrwidImageScreen._ti_clear_images")
     un = None
@@ -74,7 +77,20 @@ def run(ck, m):
           f"the identity of an on-screen image view lacks {missing}: two views that differ only in that component compare equal, so no delete is issued when it changes and the old placement stays on screen",
           stmt="_ti_clear_images: view key = (canv, row, col, *trim, cols, rows)")
     # positions advance by the unpacked geometry
-    ck.ob("R2", tc, len(find_stmts("col += cols", body_walk(tc))) >= 2 and len(find_stmts("row += n_rows", body_walk(tc))) == 1, "row/col must advance by the shard geometry", stmt="_ti_clear_images: row/col bookkeeping")
+    inner = un
+    while inner is not None and not isinstance(inner, ast.For):
+        inner = inner._p
+    outer = inner._p if inner is not None else None
+    while outer is not None and not isinstance(outer, ast.For):
+        outer = outer._p
+    ck.expect(inner is not None and outer is not None and isinstance(outer.target, ast.Tuple) and len(outer.target.elts) == 2, "_ti_clear_images: the shard / canvas-view loops not recognised")
+    if inner is not None and outer is not None and isinstance(outer.target, ast.Tuple) and len(outer.target.elts) == 2:
+        nrows = norm(outer.target.elts[0])
+        widths = [norm(e) for e in un.targets[0].elts if not isinstance(e, ast.Starred)]
+        colsv = widths[0] if widths else "cols"
+        okc = len([s_ for s_ in inner.body if match_stmt(f"col += {colsv}", s_) is not None]) == 1 and len([s_ for s_ in outer.body if match_stmt(f"row += {nrows}", s_) is not None]) == 1 \
+            and any(match_stmt("col = 1", s_) is not None for s_ in outer.body) and any(match_stmt("row = 1", s_) is not None and s_.lineno < outer.lineno for s_ in tc.body)
+        ck.ob("R2", tc, okc, f"row/col must advance by the shard geometry: `col += {colsv}` once per view, `row += {nrows}` once per shard, col restarting at 1 in every shard and row starting at 1", stmt="_ti_clear_images: row/col bookkeeping")
     g = CFG(tc)
     insp = [n for n in g.nodes if n.kind in ("stmt", "iter", "test") and n.ast is not None and "self._ti_image_cviews" in norm(n.ast if n.kind != "iter" else n.ast.iter) and not any(
         norm(t) == "self._ti_image_cviews" for t, _ in (stores_in(n.ast) if n.kind == "stmt" else []))]
@@ -89,7 +105,7 @@ def run(ck, m):
               stmt=f"_ti_clear_images: views updated after `{short(n.ast if n.kind != 'iter' else n.ast.iter, 50)}`")
     last = tc.body[-1]
     ck.ob("R2", last, norm(last) == "self._ti_image_cviews = frozenset(image_cviews)", "the method must end by recording the views found on the new canvas", stmt="_ti_clear_images: records frozenset(image_cviews)")
-    diff_loop = next((n for n in body_walk(tc) if isinstance(n, ast.For) and "self._ti_image_cviews - image_cviews" in norm(n.iter)), None)
+    diff_loop = next((n for n in body_walk(tc) if isinstance(n, ast.For) and "self._ti_image_cviews - image_cviews" in norm(trace(tc, n.iter))), None)
     ck.ob("R2", diff_loop or tc, diff_loop is not None, "images to delete are the recorded views that are not on the new canvas (old - new)", stmt="_ti_clear_images: deletes old - new")
     for c in body_walk(tc):
         if isinstance(c, ast.Call) and norm(c.func) == "self.clear_images":
@@ -114,17 +130,27 @@ def run(ck, m):
             ok = cc[0].lineno < sc[0].lineno if order == "before" else cc[0].lineno > sc[0].lineno
             ck.ob("R3", f, ok, f"{meth}(): clear_images must come {order} {rel_super}() (the terminal must be in the mode the delete sequence needs)", stmt=f"{meth}: clear_images {order} {rel_super}")
     g3 = CFG(ci)
-    else_branch = next((s for s in ci.body if isinstance(s, ast.If) and norm(s.test) == "widgets"), None)
-    ck.need(else_branch is not None and else_branch.orelse, "clear_images: `if widgets: ... else:` not found")
+    wtests = [n for n in g3.nodes if n.kind == "test" and n.ast is not None and norm(n.ast) in ("widgets", "not widgets")]
+    ck.need(bool(wtests), "clear_images: the test on `widgets` (clear all / clear some) not found")
     is_dis = lambda n: n.kind == "stmt" and n.ast is not None and "UrwidImageCanvas._ti_change_disguise()" in norm(n.ast)  # noqa: E731
-    tnode = next(n for n in g3.nodes if n.kind == "test" and n.ast is else_branch.test)
-    p = g3.search([tnode], lambda n: n is g3.exit_return, avoid=is_dis, edge_ok=lambda s, lab, d: not lab.startswith(("e:", "p:")) and not (s is tnode and lab == "true"))
-    ck.ob("R3", else_branch, p is None,
+
+    def all_branch(s, lab, d):
+        """edges compatible with `widgets` being empty (the clear-everything case)"""
+        if lab.startswith(("e:", "p:")):
+            return False
+        if s.kind == "test" and s.ast is not None and norm(s.ast) == "widgets" and lab == "true":
+            return False
+        if s.kind == "test" and s.ast is not None and norm(s.ast) == "not widgets" and lab == "false":
+            return False
+        return True
+    p = g3.search(wtests, lambda n: n is g3.exit_return, avoid=is_dis, edge_ok=all_branch)
+    else_branch = wtests[0].ast
+    ck.ob("R3", enclosing_stmt(else_branch), p is None,
           f"clearing all images can complete without changing the canvas disguise ({fmt_path(p) if p else ''}): urwid's line cache then skips the unchanged image lines and the deleted images are never drawn again",
           stmt="clear_images[all]: disguise changed on every path (now or deferred)")
-    wl = next((n for n in walk_local(else_branch) if isinstance(n, ast.For) and "enumerate(widgets)" in norm(n.iter)), None)
+    wl = next((n for n in body_walk(ci) if isinstance(n, ast.For) and "enumerate(widgets)" in norm(n.iter)), None)
     okw = wl is not None and any(isinstance(s, ast.If) and "KittyImage" in norm(s.test) and any(norm(x) == "widget._ti_change_disguise()" for x in s.body) and any("kitty_widgets.append(widget)" == norm(x) for x in s.body) for s in wl.body)
-    ck.ob("R3", wl or else_branch, okw, "clearing specific widgets must change each kitty widget's disguise when it is queued for deletion (independently of now)", stmt="clear_images[widgets]: per-widget disguise changed")
+    ck.ob("R3", wl or ci, okw, "clearing specific widgets must change each kitty widget's disguise when it is queued for deletion (independently of now)", stmt="clear_images[widgets]: per-widget disguise changed")
 
     # ---- R4 ----------------------------------------------------------------------------
     ui = m.get(W, "UrwidImage")
@@ -157,11 +183,18 @@ def run(ck, m):
                 ck.ob("R4", enclosing_stmt(c), False, f"unexpected operation `{short(c, 40)}` on the free list", stmt=f"free list: {short(c, 40)}")
     ov = next((s for s in al.body if isinstance(s, ast.If) and isinstance(s.body[0], ast.Raise) and "UrwidImageError" in norm(s.body[0])), None)
     st = next((s for t, s in stores_in(ast.Module(body=al.body, type_ignores=[])) if isinstance(t, ast.Attribute) and t.attr == "_ti_next_z_index"), None)
-    ck.ob("R4", al, ov is not None and st is not None and ov.lineno < st.lineno and match_expr("$z == 2 ** 31", ov.test) is not None,
+    ovt = trace(al, ov.test) if ov is not None else None
+    ck.ob("R4", al, ov is not None and st is not None and ov.lineno < st.lineno and match_expr("__class__._ti_next_z_index == 2 ** 31", ovt) is not None,
           "the allocator must refuse to hand out 2**31 (outside the signed 32-bit range) before advancing the counter", stmt="allocator: overflow test == 2**31 before the store")
     if st is not None and ov is not None:
-        z = norm(match_expr("$z == 2 ** 31", ov.test)["z"]) if match_expr("$z == 2 ** 31", ov.test) else "z_index"
-        ck.ob("R4", st, match_expr(f"-{z} if {z} > 0 else -{z} + 1", st.value) is not None, f"successor must be -z for positive and -z+1 for non-positive z (1, -1, 2, -2, ...: never reaches -(2**31)); found `{norm(st.value)}`", stmt="allocator: successor function")
+        Z = "__class__._ti_next_z_index"
+        sv = trace(al, st.value)
+        b_ = match_expr(f"$a if {Z} > 0 else $b", sv)
+        try:
+            oks = b_ is not None and equal(b_["a"], parse(f"-{Z}")) and equal(b_["b"], parse(f"1 - {Z}"))
+        except NotPoly:
+            oks = False
+        ck.ob("R4", st, oks, f"successor must be -z for positive and -z+1 for non-positive z (1, -1, 2, -2, ...: never reaches -(2**31)); found `{norm(sv)}`", stmt="allocator: successor function")
     init = next((s for s in ui.body if isinstance(s, ast.Assign) and norm(s.targets[0]) == "_ti_next_z_index"), None)
     ck.ob("R4", init or ui, init is not None and norm(init.value) == "1", "the counter starts at 1", stmt="allocator: starts at 1")
     dec = {(dotted(d) or "") for d in al.decorator_list}
